@@ -92,6 +92,12 @@ def run(ctx):
     if call_is(body, "bytes", "bytearray") and body[2] and strip(body[2][0])[0] in ("list", "tuple"):
         items = list(strip(body[2][0])[1])
     if items is None:
+        # any other spelling of the same byte sequence (b"".join / + / constants / bytes(n)): per-byte view of its layout
+        from ..seq import Layouts, explode
+        ex = explode(Layouts(prog).layout(body))
+        if ex is not None and all(x[0] in ("c", "t") for x in ex):
+            items = [("const", x[1]) if x[0] == "c" else x[1] for x in ex]
+    if items is None:
         raise AnalysisError(f"{fn.qual}: body is not bytes([...]) of per-byte expressions: {show(body)[:80]}")
     ctx.ob("C10.a", fn.qual, len(items) == N_BODY, f"body has {N_BODY} bytes before id/CRC", func=fn.qual, file=file, construct="body length",
            fail=f"body has {len(items)} bytes, the vendor control body has {N_BODY} before the message id")
